@@ -23,7 +23,7 @@ Fields == <<
   [f |-> "rule.body.name",   vals |-> IdxVals],
   [f |-> "fact.term.kind",   vals |-> << "variable", "empty-oneof", "set-empty", "set-nested", "set-mixed", "set-bytes", "set-variable",
                                          "set-duplicates", "date-max", "int-min", "bytes-empty", "bytes-big" >>],
-  [f |-> "check.expr",       vals |-> << "no-ops", "only-binary", "only-unary", "two-values", "1001-values", "unary-code-7", "binary-code-99",
+  [f |-> "check.expr",       vals |-> << "no-ops", "only-binary", "only-unary", "two-values", "1001-values", "unary-code-7", "binary-code-99", "unary-code-neg", "binary-code-neg",
                                          "op-empty-oneof", "unknown-variable", "div-zero", "min-div-minus1", "set-bytes-eq", "set-bytes-union",
                                          "regex-invalid", "regex-huge", "type-mix", "deep-parens", "union-mixed-contains", "union-mixed-eq", "inter-mixed-length" >>],
   [f |-> "check.shape",      vals |-> << "no-queries", "empty-query", "head-unbound", "many-queries" >>],
